@@ -4,6 +4,7 @@ passlib.utils.binary - binary data encoding/decoding/manipulation
 
 from __future__ import annotations
 
+import threading
 from base64 import (
     b32decode as _b32decode,
 )
@@ -827,6 +828,10 @@ class Base64Engine:
         return self._encode_int(value, 64)
 
 
+#: lock held while a LazyBase64Engine initializes itself
+_lazy_init_lock = threading.RLock()
+
+
 class LazyBase64Engine(Base64Engine):
     """Base64Engine which delays initialization until it's accessed"""
 
@@ -836,14 +841,25 @@ class LazyBase64Engine(Base64Engine):
         self._lazy_opts = (args, kwds)
 
     def _lazy_init(self):
-        args, kwds = self._lazy_opts
-        super().__init__(*args, **kwds)
-        del self._lazy_opts
-        self.__class__ = Base64Engine
+        with _lazy_init_lock:
+            opts = self._lazy_opts
+            if opts is None:
+                # another thread finished the job while we waited for the lock
+                return
+            args, kwds = opts
+            super().__init__(*args, **kwds)
+            # NOTE: only flag the engine as ready once it's fully initialized
+            self._lazy_opts = None
+            self.__class__ = Base64Engine
 
     def __getattribute__(self, attr):
-        if not attr.startswith("_"):
-            self._lazy_init()
+        if (
+            not attr.startswith("_")
+            and object.__getattribute__(self, "_lazy_opts") is not None
+        ):
+            # NOTE: not using self._lazy_init(), another thread may have switched
+            #       our class to Base64Engine in the meantime
+            LazyBase64Engine._lazy_init(self)
         return object.__getattribute__(self, attr)
 
 
